@@ -112,10 +112,12 @@ def token_spelling_sites(ctx, rid):
                     return True
         return False
 
+    mkdef = lx.method("CLexer", "_make_token")
     for mname, fn, c in sites:
-        if len(c.args) != 3:
-            raise AnalysisError(f"{mname}: _make_token call with {len(c.args)} positional arguments")
-        _T, V, P = c.args
+        pa_ = S.positional_args(c, mkdef)
+        if pa_ is None or len(pa_) != 3 or any(a is None for a in pa_):
+            raise AnalysisError(f"{mname}: _make_token call does not fit (type, spelling, offset)")
+        _T, V, P = pa_
         why = None
         v = V
         if isinstance(v, ast.Name):
